@@ -515,5 +515,10 @@ func (e *Engine) Generate(r *core.Rand, prop string, tier string) core.Trace {
 		}
 	}
 	t.Probes = append(t.Probes, 0, r.Uint64())
+	// drawn last, so that every other choice of the run is what it was before
+	// this tier existed: one C20 run in sixteen goes through the real binary
+	if prop == "C20" && t.Read == nil && r.Chance(1, 16) {
+		t.Child, t.Tty = true, true
+	}
 	return t
 }
